@@ -36,7 +36,12 @@ const ITEMS: [(&str, &str, usize); N_ITEMS] = [
 ];
 const CHILD_TIMEOUT: Duration = Duration::from_secs(120);
 
-fn order(tid: u64) -> Vec<usize> {
+fn order(tid: u64, focus: u64) -> Vec<usize> {
+    // focus < N_ITEMS: EVERY thread starts with that item, so all first calls into one algorithm
+    // (one-time initialisation, lazily filled tables) happen at the same moment
+    if (focus as usize) < N_ITEMS {
+        return (0..N_ITEMS as u64).map(|j| ((focus + j) % N_ITEMS as u64) as usize).collect();
+    }
     (0..N_ITEMS as u64).map(|j| ((6 * tid + j) % N_ITEMS as u64) as usize).collect()
 }
 fn len_a(seed: u64, tid: u64, it: u64) -> u64 {
@@ -68,9 +73,9 @@ fn new_line(it: usize, slot: usize, sd: u64) -> String {
 }
 
 /// the script of thread `tid`: (result item, protocol line)
-fn script(tid: u64, seed: u64, rounds: u64) -> Vec<(usize, String)> {
+fn script(tid: u64, seed: u64, rounds: u64, focus: u64) -> Vec<(usize, String)> {
     let sd = seed + tid;
-    let ord = order(tid);
+    let ord = order(tid, focus);
     let is_c = |it: usize| ITEMS[it].0 == "chacha";
     let mut s = Vec::new();
     // phase A: one-shot
@@ -128,11 +133,24 @@ fn fresh_ctx() -> crate::Ctx {
 /// body of `cch --conc-child <nthreads> <seed> <rounds>`; returns the process exit code.
 pub fn child_main(args: &[String]) -> i32 {
     let p: Vec<u64> = args.iter().filter_map(|a| a.parse().ok()).collect();
-    if p.len() != 3 || args.len() != 3 || p[0] == 0 || p[0] > 256 || p[2] > 64 {
+    if p.len() != 5 || args.len() != 5 || p[0] == 0 || p[0] > 256 || p[2] > 64 {
         println!("bad-op");
         return 2;
     }
-    let (n, seed, rounds) = (p[0], p[1], p[2]);
+    let (n, seed, rounds, focus, warm) = (p[0], p[1], p[2], p[3], p[4]);
+    if warm != 0 {
+        // warm std's CPU-feature cache (and nothing else of the focused algorithm) before the race:
+        // one digest with a DIFFERENT algorithm on the main thread
+        let mut ctx = fresh_ctx();
+        let it = if (focus as usize) < N_ITEMS { (focus as usize + 5) % N_ITEMS } else { 4 };
+        for line in [new_line(it, 0, 1), format!("{} updpat 0 10 1", ITEMS[it].0), format!("{} fin 0", ITEMS[it].0)] {
+            if ITEMS[it].0 == "chacha" && !line.starts_with("chacha new") {
+                continue;
+            }
+            let toks: Vec<&str> = line.split_whitespace().collect();
+            let _ = crate::step(&mut ctx, &toks);
+        }
+    }
     let barrier = Arc::new(Barrier::new(n as usize));
     let mut handles = Vec::new();
     for tid in 0..n {
@@ -141,7 +159,7 @@ pub fn child_main(args: &[String]) -> i32 {
             .name(format!("conc-{}", tid))
             .spawn(move || {
                 // everything before the barrier is harness-only (no library call)
-                let sc = script(tid, seed, rounds);
+                let sc = script(tid, seed, rounds, focus);
                 let mut ctx = fresh_ctx();
                 let mut res: Vec<Vec<String>> = vec![Vec::new(); 2 * N_ITEMS];
                 b.wait();
@@ -181,13 +199,15 @@ pub fn child_main(args: &[String]) -> i32 {
     0
 }
 
-fn run_child(n: u64, seed: u64, rounds: u64) -> Option<String> {
+fn run_child(n: u64, seed: u64, rounds: u64, focus: u64, warm: u64) -> Option<String> {
     let exe = std::env::current_exe().ok()?;
     let mut child = Command::new(exe)
         .arg("--conc-child")
         .arg(n.to_string())
         .arg(seed.to_string())
         .arg(rounds.to_string())
+        .arg(focus.to_string())
+        .arg(warm.to_string())
         .stdin(Stdio::null())
         .stdout(Stdio::piped())
         .stderr(Stdio::null())
@@ -236,7 +256,23 @@ pub fn step(toks: &[&str]) -> String {
             if n == 0 || n > 256 || rounds > 64 {
                 return "bad-op".into();
             }
-            match run_child(n, seed, rounds) {
+            match run_child(n, seed, rounds, 255, 0) {
+                Some(s) => s,
+                None => "panic".into(),
+            }
+        }
+        // focused trial: every thread's FIRST call goes into item `focus`; `warm` != 0 warms the
+        // feature-detection cache with another algorithm first.  Same results as `conc n seed rounds`.
+        ["conc", n, seed, rounds, focus, warm] => {
+            let (Ok(n), Ok(seed), Ok(rounds), Ok(focus), Ok(warm)) =
+                (n.parse::<u64>(), seed.parse::<u64>(), rounds.parse::<u64>(), focus.parse::<u64>(), warm.parse::<u64>())
+            else {
+                return "bad-op".into();
+            };
+            if n == 0 || n > 256 || rounds > 64 {
+                return "bad-op".into();
+            }
+            match run_child(n, seed, rounds, focus, warm) {
                 Some(s) => s,
                 None => "panic".into(),
             }
